@@ -96,6 +96,14 @@ def correspondence(rng, tier):
     r['distinct'] = r.get('distinct', 0) + f.get('distinct', 0)
     r.setdefault('distribution', {})['restore_then_declare'] = f.get('programs', 0)
     r['rule'] = r.get('rule', '') + '; plus restore_then_declare: result() of quantities depending on restored intermediates, reading context id smaller and larger than the writing one (model Archive.v + Kernel.step)'
+    # extra_corr: array_result: result(array) over every rank, memory layout and label form (model Array.v C16_result + per-element checks)
+    import arrays
+    q = arrays.result_correspondence(rng, tier, 'C06res')
+    r['mismatches'] += q.get('mismatches', [])
+    r['programs'] += q.get('programs', 0); r['steps'] += q.get('steps', 0)
+    r['distinct'] = r.get('distinct', 0) + q.get('distinct', 0)
+    r.setdefault('distribution', {})['array_result'] = q.get('programs', 0)
+    r['rule'] = r.get('rule', '') + '; plus array_result: result(array) over every rank, memory layout (views) and label form: every element a new declared intermediate with the operand element\'s value, u, dof and components, labels base[k] in C index order (model Array.v)'
     import modcorr
     modcorr.add_to(r, modcorr.mod_correspondence(rng, tier, 'C06m'), 'mod_fmod', 'x % y and fmod(x, y) of uncertain reals of every structural kind (elementary, dependent, sum, scaled, declared intermediate, constant, mixed) against the model Special.v umod/ufmod (value and the three component vectors bit for bit)')
     return r
